@@ -920,19 +920,19 @@ pub mod implementations {
 
                 let var = var.move_out_of_heap_primitive()?;
 
-                ctx.register_variable_local(name.to_owned(), var)?;
+                ctx.register_variable(Cow::Owned(name.to_owned()), var)?;
                 true
             }
             primitive @ Primitive::Optional(None) => {
                 let primitive = primitive.move_out_of_heap_primitive()?;
 
-                ctx.register_variable_local(name.to_owned(), primitive)?;
+                ctx.register_variable(Cow::Owned(name.to_owned()), primitive)?;
                 false
             }
             other_primitive => {
                 let other_primitive = other_primitive.move_out_of_heap_primitive()?;
 
-                ctx.register_variable_local(name.to_owned(), other_primitive)?;
+                ctx.register_variable(Cow::Owned(name.to_owned()), other_primitive)?;
                 true
             }
         };
